@@ -359,7 +359,29 @@ def where_call(t, op, cols):
     return t.where(**kwargs)
 
 
+class ReIterable:
+    """an iterable that is neither a Sequence nor a Set (no __len__, __getitem__, __contains__), iterable any number of times"""
+
+    def __init__(self, vs):
+        self._vs = list(vs)
+
+    def __iter__(self):
+        return iter(self._vs)
+
+
+FLAVOURS = ["list", "tuple", "set", "frozenset", "dictkeys", "dictvalues", "deque", "range", "iterable"]
+
+
+def as_range(vs):
+    """the range holding exactly the ints vs (in that order), or None"""
+    if vs and all(isinstance(v, int) and not isinstance(v, bool) for v in vs) and vs == list(range(vs[0], vs[0] + len(vs))):
+        return range(vs[0], vs[0] + len(vs))
+    return None
+
+
 def argv_wrap(a):
+    """the probe collection in the flavour the case asks for: every one of them is `collections.abc.Iterable and not str`,
+    which is what the code tests to take a bare argument for a collection (`in`)"""
     if "v" in a:
         return to_py(a["v"])
     vs = [to_py(x) for x in a["l"]]
@@ -368,6 +390,20 @@ def argv_wrap(a):
         return tuple(vs)
     if kind == "set":
         return set(vs)
+    if kind == "frozenset":
+        return frozenset(vs)
+    if kind == "dictkeys":
+        return dict.fromkeys(vs).keys()
+    if kind == "dictvalues":
+        return dict(enumerate(vs)).values()
+    if kind == "deque":
+        import collections
+        return collections.deque(vs)
+    if kind == "iterable":
+        return ReIterable(vs)
+    if kind == "range":
+        r = as_range(vs)
+        return r if r is not None else vs
     return vs
 
 
@@ -807,6 +843,10 @@ class Runner:
             self.tags.append("where:%s:%s" % (o, p))
         if len(op["kws"]) > 1:
             self.tags.append("where:multi-keyword")
+        for _, arg in op["kws"]:
+            inner = arg["d"][1] if "d" in arg else arg
+            if "l" in inner:
+                self.tags.append("where:probes-as:%s:%s" % (inner.get("as", "list"), "explicit-op" if ("d" in arg or op.get("pos")) else "bare"))
         if t is not tables[0] and getattr(t, "_data", None).__class__.__name__ == "View":
             self.tags.append("where:of-view")
         if f["empty"]:
@@ -1049,11 +1089,20 @@ class Gen:
         if vs and allow_dup and r.chance(0.3):
             vs.insert(r.below(len(vs) + 1), r.choice(vs))
         a = {"l": vs}
-        k = r.below(10)
-        if k == 0:
-            a["as"] = "tuple"
-        elif k == 1 and len({("null" if v[0] in "nm" else (v[1] / (v[2] if v[0] == "f" else 1)) if v[0] in "if" else v[1]) for v in vs}) == len(vs):
-            a["as"] = "set"      # only when no two members are equal for Python (2 == 2.0, Missing == None): a set would drop one
+        distinct = len({("null" if v[0] in "nm" else (v[1] / (v[2] if v[0] == "f" else 1)) if v[0] in "if" else v[1]) for v in vs}) == len(vs)
+        k = r.below(20)
+        if k < 9:
+            fl = FLAVOURS[k]
+            if fl in ("set", "frozenset", "dictkeys") and not distinct:
+                fl = "dictvalues"    # a set / dict would drop a member that is == another (2 == 2.0, Missing == None)
+            if fl == "range":
+                # a range holds consecutive ints only: make the probes such a run
+                n = r.choice([0, 1, 2, 3])
+                st = r.choice([-1, 0, 1, 2, 3, 4])
+                a["l"] = [["i", st + i] for i in range(n)]
+                if n == 0:
+                    fl = "iterable"
+            a["as"] = fl
         return a
 
     def cellpred(self, col):
@@ -1274,7 +1323,23 @@ def plain_snippet(case):
             return lit(a["v"])
         inner = ", ".join(lit(x) for x in a["l"])
         k = a.get("as", "list")
-        return "(%s,)" % inner if k == "tuple" and a["l"] else "()" if k == "tuple" else ("{%s}" % inner if k == "set" and a["l"] else "set()" if k == "set" else "[%s]" % inner)
+        if k == "tuple":
+            return "(%s,)" % inner if a["l"] else "()"
+        if k == "set":
+            return "{%s}" % inner if a["l"] else "set()"
+        if k == "frozenset":
+            return "frozenset([%s])" % inner
+        if k == "dictkeys":
+            return "dict.fromkeys([%s]).keys()" % inner
+        if k == "dictvalues":
+            return "dict(enumerate([%s])).values()" % inner
+        if k == "deque":
+            return "__import__('collections').deque([%s])" % inner
+        if k == "iterable":
+            return "type('It', (), {'__init__': lambda s, v: setattr(s, 'v', v), '__iter__': lambda s: iter(s.v)})([%s])" % inner
+        if k == "range" and as_range([to_py(x) for x in a["l"]]) is not None:
+            return repr(as_range([to_py(x) for x in a["l"]]))
+        return "[%s]" % inner
 
     def cp(p, x="c"):
         if "eq" in p:
@@ -1472,6 +1537,13 @@ class C17(Property):
             cs.append({"init": ini, "ops": [D([("a", 1)], [("b", "x"), ("c", 3)], []), D([("d", 1), ("e", 2), ("a", 5)]), C(f=[7], b=["q"]), W(0, a=V(5))]})
             cs.append({"init": ini, "ops": [D([("a", 1)], [("a", 2)]), D([("a", 3), ("b", "z")]), W(0, b=V("z"))]})
         cs.append({"init": {"kind": "columns", "columns": ["a"]}, "ops": [D([("a", 1), ("b", "x"), ("c", 1)], [("a", 2), ("c", 2), ("d", "u")]), C(e=[1, 2], f=[3, 4], a=[7, 8]), W(0, d=V("u")), W(0, e=V(2))]})
+        # every flavour of probe collection the code accepts (Iterable and not str), bare (implicit `in`) and explicit in / !in
+        for fl in FLAVOURS:
+            c12 = dict(L(1, 2), **{"as": fl})
+            for indexed in (False, True):
+                cs.append(mk("ab", [[3, "x"], [1, "y"], [2, "z"], [1, "w"], ["M", "q"]], *([IX(0, "a")] if indexed else []),
+                             W(0, a=c12), W(0, a={"d": ["in", c12]}), W(0, pos="in", a=c12), W(0, pos="!in", a=c12), W(0, a={"d": ["!in", c12]}),
+                             W(0, a=c12, b=V("q")), W(0, b=dict(L("x", "w"), **{"as": fl if fl != "range" else "iterable"}))))
         # the witnesses of the `_counterexample` theorems of Props/C17.lean, replayed on the real code
         exT = [[1, 5], [1, 6], [2, 5], ["M", 7]]
         cs.append(mk("ab", exT, IX(0, "a"), W(0, a=L(1, 1)), W(0, b={"d": ["!in", L(5)]}), W(0, a={"d": ["<", V(1)]}, b=V(6)),
